@@ -64,6 +64,9 @@ def turochampOp (st : DriverState) (args : List String) : String :=
         side "self" turn,
         side "opp" turn.opp,
         "eval=" ++ tcBits (evaluate w 0),
+        (let cnt (c : Color) : Nat × Nat :=
+           ((pos.legalMoves c).length, ((pos.legalMoves c).filter fun m => m.ty == .enPassant).length)
+         s!"nmoves={(cnt turn).1}/{(cnt turn.opp).1} ep={(cnt turn).2}/{(cnt turn.opp).2}"),
         s!"legal={(pos.legalMoves turn).length}",
         "considerable=" ++ cons]
 
